@@ -140,11 +140,21 @@ def check(P: Project, R: Report) -> None:
                         v = try_fold(P, wr.module, ast.parse(m_.group(1), mode="eval").body)
                         if isinstance(v, (set, frozenset, list, tuple, str)) and {"\n", "\r"} <= set(v):
                             return True
-                    m_ = re.fullmatch(r"not any\(\((\w+) in " + re.escape(msg) + r" for \1 in ([A-Za-z_][\w.]*)\)\)", l)
-                    if m_:
-                        v = try_fold(P, wr.module, ast.parse(m_.group(2), mode="eval").body)
-                        if isinstance(v, (set, frozenset, list, tuple, str)) and {"\n", "\r"} <= set(v):
-                            return True
+                    # `not any(b in msg for b in BREAKS)` — BREAKS a named constant or written out in place
+                    try:
+                        n_ = ast.parse(l, mode="eval").body
+                    except SyntaxError:
+                        continue
+                    if isinstance(n_, ast.UnaryOp) and isinstance(n_.op, ast.Not) and isinstance(n_.operand, ast.Call) and call_name(n_.operand) == "any" and len(n_.operand.args) == 1 \
+                            and isinstance(n_.operand.args[0], (ast.GeneratorExp, ast.ListComp)) and len(n_.operand.args[0].generators) == 1:
+                        ge = n_.operand.args[0]
+                        g0 = ge.generators[0]
+                        e0 = ge.elt
+                        if isinstance(g0.target, ast.Name) and not g0.ifs and isinstance(e0, ast.Compare) and len(e0.ops) == 1 and isinstance(e0.ops[0], ast.In) \
+                                and isinstance(e0.left, ast.Name) and e0.left.id == g0.target.id and ast.unparse(e0.comparators[0]) == msg:
+                            v = try_fold(P, wr.module, g0.iter)
+                            if isinstance(v, (set, frozenset, list, tuple, str)) and {"\n", "\r"} <= set(v):
+                                return True
                 return False
 
             if _excludes_breaks():
